@@ -6,6 +6,7 @@ from ..astutil import dict_key_lines
 from ..rt import *
 from ..values import *
 from spec import opcodes as ref
+from ..cmdeval import pub_attr
 
 ENUM_MOD = "pyscsi.pyscsi.scsi_enum_command"
 SETS = ["spc", "sbc", "ssc", "smc", "mmc"]
@@ -27,6 +28,8 @@ class _F:
 
 
 def check(prog, run):
+    from .c03 import prime_layouts
+    prime_layouts(prog)
     run.explanation = ("static comparison of every literal opcode / service-action / status constant in "
                        "scsi_enum_command.py with an independent T10 transcription (spec/opcodes.py), and an "
                        "exhaustive partition of SCSICommand.init_cdb over all 256 opcode values by constant "
@@ -281,7 +284,7 @@ def check_init_cdb(prog, run):
             for attempt in range(2):
                 try:
                     c = I.instantiate(tur, [op], {}, None, _F())
-                    cdb = c.attrs.get("_cdb")
+                    cdb = pub_attr(I, c, "cdb")
                     outs.append(len(cdb.cells) if isinstance(cdb, Buf) and cdb.cells is not None else "?")
                 except PyRaise as e:
                     ec = e.exc_class()
@@ -291,7 +294,7 @@ def check_init_cdb(prog, run):
             for attempt in range(2):
                 try:
                     c = I.instantiate(tur, [op], {}, None, _F())
-                    cdb = c.attrs.get("_cdb")
+                    cdb = pub_attr(I, c, "cdb")
                     outs.append(len(cdb.cells) if isinstance(cdb, Buf) and cdb.cells is not None else "?")
                 except PyRaise as e:
                     ec = e.exc_class()
